@@ -116,12 +116,14 @@ class World(object):
             return 'B'
         return '?'
 
-    def enabled(self, timers=False):
+    def enabled(self, timers=False, sides=None):
         ''' Sources that may run now, in id order. '''
         out = []
         st = GLib.STATE
         for sid in sorted(st.sources):
             src = st.sources[sid]
+            if sides is not None and self.owner(src) not in sides:
+                continue
             if src.kind == 'idle':
                 out.append(src)
             elif src.kind == 'io':
@@ -142,7 +144,7 @@ class World(object):
         self.log.append((self.owner(src), src.kind, getattr(src.func, '__name__', '?')))
         return GLib.dispatch(src.sid)
 
-    def run(self, max_steps, choose_budget=0, timers=False, until=None):
+    def run(self, max_steps, choose_budget=0, timers=False, until=None, sides=None):
         ''' Run enabled sources until quiescence.  Default order: lowest source id first;
         with choose_budget > 0 the harness may deviate that many times (every deviation
         point and every alternative is explored). '''
@@ -150,7 +152,7 @@ class World(object):
         while True:
             if until is not None and until():
                 return 'until'
-            en = self.enabled(timers)
+            en = self.enabled(timers, sides)
             if not en:
                 return 'quiescent'
             if self.steps >= max_steps:
